@@ -14,7 +14,8 @@ use std::{
 };
 
 pub const SLOTS: usize = 48;
-pub const OUTCOMES: usize = 8;
+pub const OUTCOMES: usize = 9;
+pub const KINDS: usize = 24;
 
 /// Lives in a `MAP_SHARED | MAP_ANONYMOUS` mapping created by the supervisor before `fork`.
 #[repr(C)]
@@ -39,6 +40,12 @@ pub struct Shared {
     /// slowest single `Debug` call of the batch / on a valid record (µs)
     pub max_debug_call_us: AtomicU64,
     pub max_valid_debug_call_us: AtomicU64,
+    /// slowest valid input per kind (index in `corpus::Kind::ALL`), µs
+    pub max_valid_by_kind: [AtomicU64; KINDS],
+    /// 1 while a `Debug` call runs under its own (small) budget; 1 in `short_budget` while the probe in progress
+    /// runs under the short budget of an entry that hung repeatedly
+    pub in_debug_call: AtomicU64,
+    pub short_budget: AtomicU64,
     /// number of panic-hook invocations during the probe in progress
     pub panics_in_probe: AtomicU64,
     /// `file:line: message` of the last panic (for aborts that follow a panic)
@@ -221,6 +228,8 @@ impl Shared {
         self.refused_old.store(0, Relaxed);
         self.panics_in_probe.store(0, Relaxed);
         self.panic_len.store(0, Relaxed);
+        self.in_debug_call.store(0, Relaxed);
+        self.short_budget.store(0, Relaxed);
     }
 
     pub fn reset_batch(&self) {
@@ -233,6 +242,9 @@ impl Shared {
         self.max_valid_cpu_us.store(0, Relaxed);
         self.max_debug_call_us.store(0, Relaxed);
         self.max_valid_debug_call_us.store(0, Relaxed);
+        for k in &self.max_valid_by_kind {
+            k.store(0, Relaxed);
+        }
         for r in &self.matrix {
             for c in r {
                 c.store(0, Relaxed);
